@@ -50,13 +50,13 @@ META = {
  "C07": {
   "engine": KANI, "design_ref": "DESIGN.md §5 C07, §12.6",
   "technique": "Kani: contract on check_parsed_token_preconditions for all token sequences up to a length bound",
-  "level_text": "Partial, bounded: for every token sequence of length 0, 1, 2 (quick) and 3 (thorough) over the seven token kinds the function rejects exactly the documented malformed shapes (empty, trailing operator, unbalanced / early-closing parentheses, forbidden adjacency).",
+  "level_text": "Partial, bounded: for every token sequence of length 0, 1 and 2 over the seven token kinds, and for 38 of the 49 prefix classes of length 3, the function rejects exactly the documented malformed shapes (empty, trailing operator, unbalanced / early-closing parentheses, forbidden adjacency). Longer sequences (3 and 8 tokens) are only sampled natively.",
   "level_note": "Bounded stand-in. Operand/operator count check and unknown-character rejection are in make_expression / the tokenizer and are not covered.",
  },
  "C15": {
   "engine": KANI, "design_ref": "DESIGN.md §5 C15, §12.6",
   "technique": "Kani: relational contract eval_flatex_consuming_vars == eval_flatex_cloning == reference reduction, with moved-flag and clone-counter operand type",
-  "level_text": "Bounded: 2 nodes (quick) / 3 nodes (thorough), each a symbolic literal-or-variable with optional unary function, symbolic order and values: both evaluators agree with an independent reference, no moved-out placeholder reaches an operator, a variable occurring once is not cloned.",
+  "level_text": "Bounded: 2 symbolic nodes and the shape x y x (quick) / 3 symbolic nodes and two 4-node shapes (thorough), each node a literal-or-variable with optional unary function, symbolic values; 5- and 36-node expressions only sampled natively: both evaluators agree with an independent reference, no moved-out placeholder reaches an operator, a variable occurring once is not cloned.",
   "level_note": "Bounded stand-in; eval_vec / eval_iter entry points and larger expressions not covered.",
  },
  "C04": {
